@@ -590,6 +590,40 @@ pub struct TextStyle {
     pub escape_slash: bool,
     /// upper-case hex digits in \u escapes
     pub upper_hex: bool,
+    /// whitespace after the root value: 0 none, 1 "\n", 2 " ", 3 "\r\n\t "
+    pub trail: u8,
+    /// how doubles are written: 0 shortest with a fraction ("0.5", "1e300"), 1 exponent form ("5e-1"), 2 upper-case exponent with sign ("5E-1", "1E+300")
+    pub num_form: u8,
+}
+
+pub fn style_to_json(s: &TextStyle) -> serde_json::Value {
+    serde_json::json!({"ws": s.ws, "escape_non_ascii": s.escape_non_ascii, "escape_slash": s.escape_slash, "upper_hex": s.upper_hex, "trail": s.trail, "num_form": s.num_form})
+}
+
+pub fn style_from_json(j: &serde_json::Value) -> TextStyle {
+    TextStyle {
+        ws: j["ws"].as_u64().unwrap_or(0) as u8,
+        escape_non_ascii: j["escape_non_ascii"].as_bool().unwrap_or(false),
+        escape_slash: j["escape_slash"].as_bool().unwrap_or(false),
+        upper_hex: j["upper_hex"].as_bool().unwrap_or(false),
+        trail: j["trail"].as_u64().unwrap_or(0) as u8,
+        num_form: j["num_form"].as_u64().unwrap_or(0) as u8,
+    }
+}
+
+fn float_text(f: f64, form: u8) -> String {
+    match form {
+        1 => format!("{:e}", f),
+        2 => {
+            let s = format!("{:E}", f);
+            // "1E300" -> "1E+300": an explicit plus sign is valid JSON
+            match s.find('E') {
+                Some(i) if !s[i + 1..].starts_with('-') => format!("{}E+{}", &s[..i], &s[i + 1..]),
+                _ => s,
+            }
+        }
+        _ => format!("{:?}", f),
+    }
 }
 
 fn write_string_styled(s: &str, st: &TextStyle, out: &mut String) {
@@ -633,6 +667,7 @@ pub fn to_text(v: &MVal, st: &TextStyle) -> String {
     let mut s = String::new();
     let mut slot = 0usize;
     write_text(v, st, &mut slot, &mut s);
+    s.push_str(["", "\n", " ", "\r\n\t "][(st.trail % 4) as usize]);
     s
 }
 
@@ -640,6 +675,7 @@ fn write_text(v: &MVal, st: &TextStyle, slot: &mut usize, out: &mut String) {
     match v {
         MVal::Null => out.push_str("null"),
         MVal::Bool(b) => out.push_str(if *b { "true" } else { "false" }),
+        MVal::F64(b) if st.num_form != 0 && f64::from_bits(*b).is_finite() => out.push_str(&float_text(f64::from_bits(*b), st.num_form)),
         MVal::I64(_) | MVal::U64(_) | MVal::F64(_) => out.push_str(&number_text(v)),
         MVal::Str(s) => write_string_styled(s, st, out),
         MVal::Arr(xs) => {
